@@ -68,6 +68,13 @@ void stream_float() {
 def atom_table(atoms):
     """label -> (dim, mag) for every *named* unit that can occur inside labels of this run."""
     t = {}
+    # every prefixed library unit first, then every library unit (so a genuine library label such as "min" or "cd"
+    # wins over a coincidental prefix + label spelling such as milli-inch or centi-day, which no alphabet here contains)
+    for p in model.ALL_PREFIXES:
+        for u in model.LIB:
+            t[p[2] + u.label] = (u.dim, model.vmul(u.mag, model.prefix_mag(p)))
+    for u in model.LIB:
+        t[u.label] = (u.dim, u.mag)
     for u in atoms:
         if u.label is not None:
             t[u.label] = (u.dim, u.mag)
